@@ -73,7 +73,7 @@ def judge(case: dict) -> dict:
             res["stats"].append("mypy_blocking_error(skipped)")
             return res
         inner = exc.get("innermost") or ("", "", 0)
-        if exc.get("tool_frame") and exc["tool_frame"][1] == "_get_mypy_build" and "/mypy/" in inner[0]:
+        if exc.get("tool_frame") and exc["tool_frame"][1] == "_get_mypy_build" and ("/mypy/" in inner[0] or inner[0].startswith("mypy/")):
             res["stats"].append("mypy_internal_error(skipped)")
             return res
         if exc.get("tool_frame") and tuple(exc["tool_frame"][:2]) == ("docstring_parsing/_docstring_parser.py", "__init__") and "/_griffe/" in inner[0] and exc["type"] != "KeyError":
